@@ -245,9 +245,13 @@ pub fn run(ctx: &mut Ctx) {
     let quick = ctx.quick();
     let fams = dfam::build(quick);
     let env = Env::new();
-    let sel = dfam::Sel { tiny: true, shapes: true, big: !quick, sweep: true, shape_cfg_stride: if quick { 7 } else { 1 } };
+    // (the quick tier takes from the big family only the input that makes single drains of the pending buffer >= 64 KiB)
+    let sel = dfam::Sel { tiny: true, shapes: true, big: true, sweep: true, shape_cfg_stride: if quick { 7 } else { 1 } };
     dfam::for_each(ctx, &fams, sel, |ctx, it| {
         if quick && it.fam == "tiny" && (it.sched_idx + it.inp.data.len()) % 3 != 0 {
+            return;
+        }
+        if quick && it.fam == "big" && !(it.inp.name == "lcg(200000)" && it.sched_idx < 3) {
             return;
         }
         ctx.case(
